@@ -43,10 +43,10 @@ impl Driver for TokenWorld {
         let mut ops = vec![];
         for _ in 0..n {
             let (mut a, mut b, c) = (rng.next() % 6, rng.next() % 6, rng.next() % 6);
-            let kind = ["mint", "transfer", "send", "burn", "allow", "transfer_from", "burn_from", "send_from", "mint", "transfer"][(rng.next() % 10) as usize];
+            let kind = ["mint", "transfer", "send", "burn", "allow", "transfer_from", "burn_from", "send_from", "mint", "transfer", "deallow"][(rng.next() % 11) as usize];
             // amounts relative to the balance / allowance are resolved at run time: mode 0 = small, 1 = all, 2 = one more than available, 3 = half
             // allowance operations mostly revolve around one owner/spender pair, so that grants, top-ups, expiry and spending meet
-            if matches!(kind, "allow" | "transfer_from" | "burn_from" | "send_from") && rng.next() % 3 != 0 { a = 0; b = 1; }
+            if matches!(kind, "allow" | "deallow" | "transfer_from" | "burn_from" | "send_from") && rng.next() % 3 != 0 { a = 0; b = 1; }
             // an allowance may carry an expiry (block height); time passes between operations
             let exp: Value = if rng.next() % 3 == 0 { json!(rng.next() % 6) } else { Value::Null };
             ops.push(json!({"op": kind, "a": a, "b": b, "c": c, "amt": rng.amount(cap).to_string(), "mode": rng.next() % 4, "exp": exp, "tick": rng.next() % 3}));
@@ -83,6 +83,7 @@ impl Driver for TokenWorld {
                 "transfer" => { let x = pick(bal[a]); (a, ExecuteMsg::Transfer { recipient: b.to_string(), amount: Uint128::new(x) }, x) }
                 "send" => { let x = pick(bal[a]); (a, ExecuteMsg::Send { contract: b.to_string(), amount: Uint128::new(x), msg: hook.clone() }, x) }
                 "burn" => { let s = if mode == 2 { a } else { "hub" }; let x = pick(bal[s]).min(bal[s]); (s, ExecuteMsg::Burn { amount: Uint128::new(x) }, x) }
+                "deallow" => { let x = match mode { 0 => 0, 1 => *allow.get(&(a.to_string(), b.to_string())).unwrap_or(&0), _ => u(&op["amt"]) }; (a, ExecuteMsg::DecreaseAllowance { spender: b.to_string(), amount: Uint128::new(x), expires: exp_h.map(cw20::Expiration::AtHeight) }, x) }
                 "allow" => { let x = u(&op["amt"]); (a, ExecuteMsg::IncreaseAllowance { spender: b.to_string(), amount: Uint128::new(x), expires: exp_h.map(cw20::Expiration::AtHeight) }, x) }
                 "transfer_from" => { let x = pick(*allow.get(&(a.to_string(), b.to_string())).unwrap_or(&0)); (b, ExecuteMsg::TransferFrom { owner: a.to_string(), recipient: d.to_string(), amount: Uint128::new(x) }, x) }
                 "burn_from" => { let x = pick(*allow.get(&(a.to_string(), b.to_string())).unwrap_or(&0)); (b, ExecuteMsg::BurnFrom { owner: a.to_string(), amount: Uint128::new(x) }, x) }
@@ -99,8 +100,13 @@ impl Driver for TokenWorld {
             let mut expect_ok = true;
             match kind {
                 "mint" => { expect_ok = sender == "hub"; if ok { *bal.get_mut(b).unwrap() += amt; } and(&mut c, "tw#C18.only_hub_mints", ok == expect_ok || (expect_ok && amt == 0)); }
-                "transfer" | "send" => { expect_ok = amt <= before[a]; if ok { *bal.get_mut(a).unwrap() -= amt; *bal.get_mut(b).unwrap() += amt; } and(&mut c, "tw#C18.transfer_within_balance", !ok || expect_ok); }
-                "burn" => { expect_ok = sender == "hub" && amt <= before[sender]; if ok { *bal.get_mut(sender).unwrap() -= amt; } and(&mut c, "tw#C18.only_hub_burns_own", !ok || expect_ok); }
+                "transfer" | "send" => { expect_ok = amt <= before[a]; if expect_ok && amt > 0 { and(&mut c, "tw#C09.transfer_and_send_within_balance_succeed", ok); } if ok { *bal.get_mut(a).unwrap() -= amt; *bal.get_mut(b).unwrap() += amt; } and(&mut c, "tw#C18.transfer_within_balance", !ok || expect_ok); }
+                "burn" => { expect_ok = sender == "hub" && amt <= before[sender]; if expect_ok && amt > 0 { and(&mut c, "tw#C09.hub_burn_within_its_balance_succeeds", ok); } if ok { *bal.get_mut(sender).unwrap() -= amt; } and(&mut c, "tw#C18.only_hub_burns_own", !ok || expect_ok); }
+                "deallow" => { if ok {
+                        // cw20: the allowance shrinks (an entry reaching zero is dropped); a given expiry replaces the stored one
+                        let cur = *allow.get(&(a.to_string(), b.to_string())).unwrap_or(&0);
+                        if amt >= cur { allow.remove(&(a.to_string(), b.to_string())); allow_exp.remove(&(a.to_string(), b.to_string())); }
+                        else { allow.insert((a.to_string(), b.to_string()), cur - amt); if let Some(e) = exp_h { allow_exp.insert((a.to_string(), b.to_string()), e); } } } }
                 "allow" => { if ok { *allow.entry((a.to_string(), b.to_string())).or_insert(0) += amt; if let Some(e) = exp_h { allow_exp.insert((a.to_string(), b.to_string()), e); } } }
                 "transfer_from" | "send_from" => { expect_ok = amt <= al && amt <= before[a]; if ok { *bal.get_mut(a).unwrap() -= amt; *bal.get_mut(d).unwrap() += amt; allow.insert((a.to_string(), b.to_string()), al.saturating_sub(amt)); } and(&mut c, "tw#C18.never_more_than_allowance", !ok || expect_ok); }
                 _ => { expect_ok = amt <= al && amt <= before[a]; if ok { *bal.get_mut(a).unwrap() -= amt; allow.insert((a.to_string(), b.to_string()), al.saturating_sub(amt)); } and(&mut c, "tw#C18.never_more_than_allowance", !ok || expect_ok); }
